@@ -14,6 +14,15 @@ Parameter histories on ONE object: constructed from parameters / parameters + sa
 instance), public parameter attributes re-assigned (all or one of them, float or int), properties read in between.  After every
 step EVERY reported quantity is evaluated against the density the object has NOW, without reading any parameter: cdf(median) = 1/2,
 the mode maximises pdf over the bulk, mean/std/skew/kurt = quadrature of pdf, pdf = d cdf/dx, invcdf∘cdf = id, rnd = invcdf(uniforms).
+Query histories: 2-3 objects (same or different family, equal parameters spelled float / int / numpy scalar) queried in turn with a
+few arrays the CALLER owns and re-uses (probabilities incl. 0, 1 and out-of-range entries; values in and below the support; float /
+int / float32 / read-only / non-contiguous / 2-d ndarray, list, tuple, scalar; keyword or positional), with rejected calls in between
+(invalid size / seed, non-numeric argument, unknown fit method, invalid constructor arguments, invalid scale set and restored, values
+below a Weibull's location).  Every result is judged by the property's clauses against the values the caller first put into the array
+(outside [0,1] -> nan, ends of the support, cdf(invcdf(p)) = p, cdf monotone in [0,1], invcdf(cdf(x)) = x, pdf = d cdf/dx, the same
+entries one at a time through a fresh object), the caller's arrays are compared with a pristine copy after every step, and after every
+rejected step all coherence clauses are re-evaluated on all objects.  A history runs in a worker thread with a time limit: a query
+that does not return is a failing clause.
 """
 import math
 
@@ -33,7 +42,13 @@ RULE = ("seeded parameters: loc in [-50,50], scale log-uniform [1e-2,1e2], Weibu
         "fit (in place / classmethod on the instance; msm, lse, mle, pwm, pwm2; new or stored sample of 60-400 values drawn by "
         "inverse transform from a seeded distribution of the family), set (re-assign all / one parameter attribute, float or int), "
         "read (all properties); all coherence clauses after every step whose state has |loc| <= 1e3, scale in [1e-3,1e3], shape in "
-        "[0.5,20]; corpus/C15 cases first")
+        "[0.5,20]; query histories of 5-9 steps on 2-3 objects (same / different family, equal parameters spelled float / int / numpy "
+        "scalar, positional / keyword) sharing 4 caller arrays (probabilities with 0, 1 and out-of-range entries, values in and "
+        "below the support; passed as float / int / float32 / read-only ndarray, view, 2-d, list, tuple, scalar): cdf / pdf / invcdf "
+        "with any array, rnd, and rejected calls (invalid size or seed, non-numeric argument, unknown fit method, invalid "
+        "constructor arguments, invalid scale set and restored, values below a Weibull's location); every result judged against "
+        "the values as first passed, the caller's arrays compared with a pristine copy after every step, all coherence clauses "
+        "on all objects after every rejected step; each history in a worker thread with a time limit; corpus/C15 cases first")
 TAIL_K = (20.0, 40.0, 200.0, 700.0, 709.0, 710.0, 745.0, 750.0, 1e3, 1e4, 1e6)
 
 
@@ -344,6 +359,448 @@ def run_param_history(h):
     return res
 
 
+# ---- query histories: several objects, the caller's arrays re-used, rejected calls in between ---------------------------------
+# A history is {"check": "query-history", "global_seed": int, "objects": [{"dist", "params", "spell", "kw"}...],
+#               "arrays": [{"values": [...], "as": spelling}...], "steps": [...], "final": object index}
+# Steps (obj = object index, arr = array index):
+#   ["invcdf"|"cdf"|"pdf", obj, arr, "kw"|"pos"]    query with one of the caller's arrays (any numeric array to any method)
+#   ["rnd", obj, size, seed, "plain"|"np"|"pos"]     valid draw
+#   ["rndbad", obj, size, seed]                      draw with an invalid size / seed                     (rejected)
+#   ["junk", obj, method, junk-key]                  query with a non-numeric argument                    (rejected)
+#   ["fitbad", obj, method-name]                     fit of a sample with an unknown method name          (rejected)
+#   ["ctorbad", kind, args]                          construction with invalid / missing parameters       (rejected)
+#   ["badscale", obj, value, method, arr]            scale set to an invalid value, one query (rejected), scale restored
+#   ["read", obj]                                    the reported moments are read
+# After EVERY step: the result is judged against the values the caller passed (a pristine copy), and every array of the caller
+# must be unchanged.  After every rejected step and at the end: the coherence clauses on all objects of the history.
+ARRAY_SPELLINGS = ("f8", "f8", "f8", "f8", "list", "tuple", "view", "2d", "i8", "f4", "ro", "scalar", "npscalar", "0d")
+JUNK = {"str": "abc", "mixed": [0.1, "x"], "none-in-list": [None, 0.1], "dict": {"a": 1}, "ragged": [[0.1, 0.2], [0.3]]}
+BAD_RND = ([-1, 5], [2.5, None], ["a", 3], [3, -1], [3, 2 ** 32], [3, "x"], [[2, -3], None], [-4, None])
+BAD_CTOR = (["gu", [None, 1.0]], ["gu", [0.0, -1.0]], ["gu", [0.0, 0.0]], ["gu", [0.0, None]], ["gu", []], ["wb", [1.0, 2.0]],
+            ["gm", [1.0, 2.0, [1.0], 4.0]], ["wb", [0.0, 1.0, 2.0, [1.0], 5.0]])
+BAD_SCALE = (0, 0.0, -1.0, None, "a")
+BAD_FIT = ("nope", "pwm3", "", None, 3, "lsq")
+QH_LIMIT = 5.0                       # seconds allowed for one whole history (normally a few milliseconds)
+
+
+def make_spelled(spec):
+    """the object of a query history: parameters spelled as float / int / numpy scalars, positional or by keyword"""
+    from qats.stats.weibull import Weibull
+    from qats.stats.gumbel import Gumbel
+    from qats.stats.gumbelmin import GumbelMin
+    kind, par, sp = spec["dist"], list(spec["params"]), spec.get("spell", "float")
+    conv = {"float": float, "int": int, "np": np.float64, "npint": np.int64}[sp]
+    par = [conv(v) for v in par]
+    cls = {"wb": Weibull, "gu": Gumbel, "gm": GumbelMin}[kind]
+    if spec.get("kw"):
+        return cls(**dict(zip(("loc", "scale", "shape"), par)))
+    return cls(*par)
+
+
+def build_arg(spec):
+    """-> (argument as the caller passes it, holder = the caller's mutable object behind it or None, the values as float64)"""
+    vals, how = spec["values"], spec["as"]
+    if how == "list":
+        a = [v for v in vals]
+        return a, a, np.array(vals, dtype=float)
+    if how == "tuple":
+        return tuple(vals), None, np.array(vals, dtype=float)
+    if how == "view":                                   # non-contiguous view of a larger array of the caller
+        base = np.full(2 * len(vals), 0.5)
+        base[::2] = vals
+        return base[::2], base, np.array(vals, dtype=float)
+    if how == "2d":
+        a = np.array(vals, dtype=float).reshape(-1, 2) if len(vals) % 2 == 0 else np.array(vals, dtype=float).reshape(-1, 1)
+        return a, a, a.copy()
+    if how == "i8":
+        a = np.array(vals, dtype=np.int64)
+        return a, a, a.astype(float)
+    if how == "f4":
+        a = np.array(vals, dtype=np.float32)
+        return a, a, a.astype(float)
+    if how == "ro":
+        a = np.array(vals, dtype=float)
+        a.flags.writeable = False
+        return a, a, a.copy()
+    if how == "scalar":
+        return float(vals[0]), None, np.array(float(vals[0]))
+    if how == "npscalar":
+        return np.float64(vals[0]), None, np.array(float(vals[0]))
+    if how == "0d":
+        a = np.array(float(vals[0]))
+        return a, a, a.copy()
+    a = np.array(vals, dtype=float)
+    return a, a, a.copy()
+
+
+def snapshot(holder):
+    if holder is None:
+        return None
+    return list(holder) if isinstance(holder, list) else (holder.dtype, holder.shape, holder.copy())
+
+
+def unchanged(holder, snap):
+    if holder is None:
+        return True
+    if isinstance(holder, list):
+        return len(holder) == len(snap) and all(type(a) is type(b) and a == b for a, b in zip(holder, snap))
+    return holder.dtype == snap[0] and holder.shape == snap[1] and np.array_equal(holder, snap[2])
+
+
+def _flt(a):
+    return np.asarray(a, dtype=float)
+
+
+def _each(ref, op, v):
+    """the query one entry at a time on a fresh object of the same parameters"""
+    kw = "p" if op == "invcdf" else "x"
+    return np.array([float(_flt(getattr(ref, op)(**{kw: [float(t)]}))[0]) for t in v], dtype=float)
+
+
+def q_judge(o, ref, kind, par, op, v, res, lowprec=False):
+    """clauses of the property for the result of ONE query; v = the values the caller passed (float64, pristine), par as floats.
+    -> list of (oracle, expected, observed).  lowprec: float32 argument, only ranges and special cases are judged."""
+    out = []
+    loc, scale = par[0], par[1]
+    if res is None or np.shape(res) != np.shape(v):
+        return [("%s returns one value per entry of the argument" % op, "shape %s" % (np.shape(v),),
+                 "None" if res is None else "shape %s" % (np.shape(res),))]
+    v = np.asarray(v, dtype=float).ravel()
+    try:
+        r = _flt(res).ravel()
+    except (TypeError, ValueError):
+        return [("%s returns numbers" % op, "float values", repr(res)[:120])]
+    if v.size == 0:
+        return out
+    with np.errstate(all="ignore"):
+        if op == "invcdf":
+            outside, one, zero, inner = (v < 0) | (v > 1), v == 1, v == 0, (v > 0) & (v < 1)
+            lo = loc if kind == "wb" else -math.inf
+            at_lo = (r[zero] == lo) if not (lowprec and kind == "wb") else (np.abs(r[zero] - lo) <= 1e-6 * (abs(lo) + scale))
+            if not (np.all(np.isnan(r[outside])) and np.all(r[one] == math.inf) and np.all(at_lo) and
+                    not np.any(np.isnan(r[inner]))):
+                exp_ = np.where(outside, math.nan, np.where(one, math.inf, np.where(zero, lo, 0.0)))
+                return [("invcdf: 0 and 1 map to the ends of the support, values outside [0,1] to nan, values inside (0,1) to "
+                         "quantiles", ["quantile" if i else e for e, i in zip(exp_.tolist(), inner.tolist())], r.tolist())]
+            if inner.any() and not lowprec:
+                xi, qi = r[inner], v[inner]
+                c, f = _flt(o.cdf(x=xi)), _flt(o.pdf(x=xi))
+                slack = np.nan_to_num(f, nan=0.0, posinf=1e300) * (np.abs(np.nan_to_num(xi, neginf=0.0)) + abs(loc)) * 2e-14 + 1e-12
+                if not np.all(np.abs(c - qi) <= 1e-7 * qi + slack):
+                    out.append(("cdf(invcdf(p)) == p", qi.tolist(), c.tolist()))
+            if lowprec:
+                return out                   # float32 probabilities: 1 - p and log(p) are rounded to 6e-8, only the special cases are judged
+            e = _each(ref, op, v)
+            if not np.allclose(r, e, rtol=1e-11, atol=1e-12 * (abs(loc) + scale), equal_nan=True):
+                out.append(("invcdf(p) is a function of the parameters and the probability only (same entries one at a time through "
+                            "a fresh object of the same parameters)", e.tolist(), r.tolist()))
+            return out
+        if kind == "wb" and np.any(v < loc):
+            return out                       # values below the support: the Weibull cdf / pdf are not defined there, nothing judged
+        c = r if op == "cdf" else _flt(o.cdf(x=v)).ravel()
+        if op == "cdf":
+            order = np.argsort(v, kind="stable")
+            if not (np.all(np.isfinite(r)) and np.all(r >= 0) and np.all(r <= 1) and np.all(np.diff(r[order]) >= (-1e-6 if lowprec else -1e-15))):
+                return [("cdf non-decreasing within [0,1]", "monotone in x, in [0,1]", dict(x=v[order].tolist(), cdf=r[order].tolist()))]
+            sel = (r >= 1e-4) & (r <= 1 - 1e-4)
+            if sel.any() and not lowprec:
+                back = _flt(o.invcdf(p=r[sel]))
+                if not np.allclose(back, v[sel], rtol=1e-6, atol=1e-9 * scale):
+                    out.append(("invcdf(cdf(x)) == x", v[sel].tolist(), back.tolist()))
+        else:
+            if np.any(np.isnan(r)) or np.any(r < 0):
+                return [("the density is defined and non-negative", ">= 0", r.tolist())]
+            h = 1e-6 * scale
+            sel = (c >= 0.02) & (c <= 0.98) & ((v - h >= loc) if kind == "wb" else True)
+            if sel.any() and not lowprec:
+                xp, xm = v[sel] + h, v[sel] - h
+                num = (_flt(o.cdf(x=xp)) - _flt(o.cdf(x=xm))) / (xp - xm)
+                if not np.allclose(num, r[sel], rtol=2e-5, atol=0):
+                    out.append(("pdf is the derivative of the cdf (central difference, rel 2e-5)", num.tolist(), r[sel].tolist()))
+        if not lowprec:
+            e = _each(ref, op, v)
+            if not np.allclose(r, e, rtol=1e-11, atol=4e-16 if op == "cdf" else 1e-300, equal_nan=True):
+                out.append(("%s(x) is a function of the parameters and the value only (same entries one at a time through a fresh "
+                            "object of the same parameters)" % op, e.tolist(), r.tolist()))
+    return out
+
+
+def moments_of(o, kind):
+    names = ("mean", "std", "skew", "kurt") + (() if kind == "wb" else ("median", "mode"))
+    return names, [getattr(o, a) for a in names]
+
+
+def read_clauses(o, ref, kind):
+    """the reported quantities are those of the density = a function of the parameters only (fresh object, same parameters)"""
+    names, got = moments_of(o, kind)
+    _, exp_ = moments_of(ref, kind)
+    bad = [n for n, a, b in zip(names, got, exp_) if a is None or not close(float(a), float(b), 1e-12)]
+    if bad:
+        return [("reported %s are those of the density of the object's parameters (equal to a fresh object of the same parameters)"
+                 % "/".join(bad), [float(b) for b in exp_], [None if a is None else float(a) for a in got])]
+    return []
+
+
+LIGHT_Q = np.array([1e-4, 0.01, 0.25, 0.5, 0.75, 0.99, 0.9999])
+
+
+def light_clauses(o, ref, kind, par):
+    """the cheap coherence clauses on one object (no quadrature); numpy's global random state is put back afterwards"""
+    out = []
+    saved = np.random.get_state()
+    try:
+        with np.errstate(all="ignore"):
+            pe = np.array([0.0, 1.0, -0.5, 1.5, 0.3])
+            out += q_judge(o, ref, kind, par, "invcdf", pe, o.invcdf(p=pe.copy()))
+            xs = _flt(o.invcdf(p=LIGHT_Q.copy()))
+            out += q_judge(o, ref, kind, par, "invcdf", LIGHT_Q, xs)
+            if np.all(np.isfinite(xs)) and not np.all(np.diff(xs) > 0):
+                out.append(("invcdf increasing in p", "increasing", xs.tolist()))
+            if np.all(np.isfinite(xs)):
+                out += q_judge(o, ref, kind, par, "cdf", xs, o.cdf(x=xs.copy()))
+                out += q_judge(o, ref, kind, par, "pdf", xs, o.pdf(x=xs.copy()))
+            r = _flt(o.rnd(size=3, seed=99))
+            e = _flt(o.invcdf(p=np.random.RandomState(99).random_sample(3)))
+            if not (r.shape == e.shape and np.allclose(r, e, rtol=1e-14, atol=0)):
+                out.append(("rnd(seed) == invcdf(uniforms of that seed)", e.tolist(), r.tolist()))
+            out += read_clauses(o, ref, kind)
+    except Exception as e:
+        out.append(("cdf / pdf / invcdf / rnd / moments are defined for valid parameters", "values", "%s: %s" % (type(e).__name__, e)))
+    finally:
+        np.random.set_state(saved)
+    return out
+
+
+def gen_query_history(rng):
+    kinds = ["wb", "gu", "gm"]
+    objs, same = [], False
+    whole = lambda par: [float(round(par[0])), float(max(1, round(par[1])))] + [float(max(1, round(v))) for v in par[2:]]
+    for i in range(rng.randint(2, 3)):
+        if i == 1 and rng.random() < 0.5:
+            kind = objs[0]["dist"]                                   # a second object of the same class ...
+            same = rng.random() < 0.5                                # ... of equal (spelled differently) or of other parameters
+            par = list(objs[0]["params"]) if same else rand_params(rng, kind)
+        else:
+            kind = rng.choice(kinds)
+            par = rand_params(rng, kind)
+        sp = rng.choice(["float", "float", "float", "np", "int", "npint"])
+        if same and i == 1 and sp == objs[0]["spell"]:
+            sp = rng.choice([x for x in ("float", "np", "int", "npint") if x != sp])
+        objs.append(dict(dist=kind, params=par, spell=sp, kw=rng.random() < 0.25))
+    ints = [ob["spell"] in ("int", "npint") for ob in objs]
+    for i, ob in enumerate(objs):                                    # int spellings need whole numbers
+        if ints[i] or (same and i < 2 and (ints[0] or ints[1])):
+            ob["params"] = whole(ob["params"])
+    o0 = objs[0]
+    loc0, sc0 = o0["params"][0], o0["params"][1]
+    inner = lambda: rng.choice([1e-6, 0.5, 1 - 1e-6, round(rng.random(), 6), round(rng.random(), 6), round(rng.random(), 6)])
+    outer = lambda: rng.choice([-0.25, 1.5, -1e-9, 1 + 1e-9, 2.0, -1.0, 1e6, -3.5])
+
+    def values(role, how):
+        n = rng.choice([2, 4, 4, 6, 7])
+        if how == "2d" and n % 2:
+            n += 1
+        if how == "i8":
+            pool = [0, 1, 1, 0, -1, 2] if role != "x" else [int(round(loc0 + sc0 * t)) for t in (-2, 0, 1, 2, 3, 5)]
+            return [int(rng.choice(pool)) for _ in range(n)]
+        if role == "p-valid":
+            return [inner() for _ in range(n)]
+        if role == "p-ends":
+            return [rng.choice([0.0, 1.0, inner()]) for _ in range(n)]
+        if role == "p-out":
+            v = [rng.choice([inner(), inner(), 0.0, 1.0, outer(), outer()]) for _ in range(n)]
+            v[rng.randrange(n)] = outer()
+            return v
+        if role == "x-bulk":                                          # inside the support of every family at these parameters
+            return [round(loc0 + sc0 * rng.uniform(0.05, 3.0), 6) for _ in range(n)]
+        return [round(loc0 + sc0 * rng.uniform(-4.0, 6.0), 6) for _ in range(n)]      # x-wide: also below a Weibull's location
+    roles = ["p-out", rng.choice(["p-valid", "p-ends", "p-out"]), "x-bulk", rng.choice(["x-wide", "x-bulk", "p-out"])]
+    arrays = []
+    for k, role in enumerate(roles):
+        how = "f8" if (k == 0 and rng.random() < 0.6) else rng.choice(ARRAY_SPELLINGS)
+        arrays.append(dict(values=values(role, how), **{"as": how}))
+    steps = []
+    hot = rng.randrange(len(arrays))
+    arr = lambda: hot if rng.random() < 0.4 else rng.randrange(len(arrays))
+    ob = lambda: rng.randrange(len(objs))
+    ops = ["invcdf"] * 6 + ["cdf"] * 3 + ["pdf"] * 3 + ["rnd"] * 2 + ["rndbad", "junk", "fitbad", "ctorbad", "badscale", "read"]
+    for _ in range(rng.randint(5, 9)):
+        op = rng.choice(ops)
+        if op in ("invcdf", "cdf", "pdf"):
+            steps.append([op, ob(), arr(), rng.choice(["kw", "kw", "pos"])])
+        elif op == "rnd":
+            steps.append(["rnd", ob(), rng.choice([None, 0, 1, 3, 5, [2, 3]]), rng.choice([None, None, 0, 21, rng.randint(0, 2 ** 31 - 1)]),
+                          rng.choice(["plain", "plain", "np", "pos"])])
+        elif op == "rndbad":
+            steps.append(["rndbad", ob()] + list(rng.choice(BAD_RND)))
+        elif op == "junk":
+            steps.append(["junk", ob(), rng.choice(["invcdf", "cdf", "pdf"]), rng.choice(sorted(JUNK))])
+        elif op == "fitbad":
+            steps.append(["fitbad", ob(), rng.choice(BAD_FIT)])
+        elif op == "ctorbad":
+            steps.append(["ctorbad"] + list(rng.choice(BAD_CTOR)))
+        elif op == "badscale":
+            steps.append(["badscale", ob(), rng.choice(BAD_SCALE), rng.choice(["invcdf", "cdf", "pdf"]), arr()])
+        else:
+            steps.append(["read", ob()])
+    return dict(check="query-history", global_seed=rng.choice([7, rng.randint(0, 2 ** 31 - 1)]), objects=objs, arrays=arrays,
+                steps=steps, final=rng.randrange(len(objs)))
+
+
+def _query_history_body(h, prog, res):
+    import contextlib
+    import io
+    specs = h["objects"]
+    kinds = [s["dist"] for s in specs]
+    pars = [tuple(float(v) for v in s["params"]) for s in specs]
+    try:
+        objs = [make_spelled(s) for s in specs]
+        refs = [make(k, p) for k, p in zip(kinds, pars)]
+    except Exception as e:
+        res.append((-1, ["construct"], "the distribution objects can be constructed from valid parameters", "objects", "%s: %s" % (type(e).__name__, e)))
+        return
+    built = [build_arg(a) for a in h["arrays"]]
+    snaps = [snapshot(b[1]) for b in built]
+    altered = set()
+    np.random.seed(h["global_seed"])                         # the caller seeds numpy's generator
+    rs = np.random.RandomState(h["global_seed"])
+    sample = np.array([0.3, 1.1, 0.7, 2.4, 1.9, 0.2, 1.4, 3.3, 0.9, 1.6, 2.8, 0.5])
+
+    def coherent(i, st, which):
+        for j in which:
+            for orc, e_, g_ in light_clauses(objs[j], refs[j], kinds[j], pars[j]):
+                res.append((i, st, "afterwards, object %d (%s%s): %s" % (j, kinds[j], list(pars[j]), orc), e_, g_))
+    n = len(h["steps"])
+    for i, st in enumerate(h["steps"]):
+        prog["step"], prog["what"] = (i, st), "the call of"
+        op = st[0]
+        rejected = False
+        if op in ("invcdf", "cdf", "pdf"):
+            j, k = st[1], st[2]
+            o, (arg, holder, vals) = objs[j], built[k]
+            kw = "p" if op == "invcdf" else "x"
+            below = kinds[j] == "wb" and op != "invcdf" and bool(np.any(vals < pars[j][0]))
+            try:
+                with np.errstate(all="ignore"):
+                    r = getattr(o, op)(arg) if st[3] == "pos" else getattr(o, op)(**{kw: arg})
+            except Exception as e:
+                rejected = True
+                if not below:
+                    res.append((i, st, "%s is defined for valid parameters and every numeric argument (probabilities outside [0,1] -> nan)" % op,
+                                "values", "%s: %s" % (type(e).__name__, e)))
+            else:
+                try:
+                    for orc, e_, g_ in q_judge(o, refs[j], kinds[j], pars[j], op, vals, r, lowprec=h["arrays"][k]["as"] == "f4"):
+                        res.append((i, st, "%s of the caller's array %d (values as first passed: %s): %s" % (op, k, h["arrays"][k]["values"], orc), e_, g_))
+                except Exception as e:
+                    res.append((i, st, "cdf / pdf / invcdf are defined for valid parameters", "values", "%s: %s" % (type(e).__name__, e)))
+        elif op == "rnd":
+            j, size, seed, sp = st[1], st[2], st[3], st[4]
+            o = objs[j]
+            size = tuple(size) if isinstance(size, list) else size
+            a_size = np.int64(size) if (sp == "np" and isinstance(size, int)) else size
+            a_seed = np.int64(seed) if (sp == "np" and seed is not None) else seed
+            try:
+                with np.errstate(all="ignore"):
+                    if sp == "pos":
+                        g = o.rnd(a_size, a_seed)
+                    elif seed is None:
+                        g = o.rnd(size=a_size) if size is not None else o.rnd()
+                    else:
+                        g = o.rnd(size=a_size, seed=a_seed)
+                    if seed is not None:
+                        rs = np.random.RandomState(seed)
+                    if rs is not None:
+                        u = rs.random_sample(size)
+                        e = _flt(o.invcdf(p=u))
+                        g = _flt(g)
+                        if not (g.shape == e.shape and np.allclose(g, e, rtol=1e-14, atol=0, equal_nan=True)):
+                            res.append((i, st, "rnd: the draw is invcdf of numpy's uniform stream continued from the governing seed (seed "
+                                        "argument of this or an earlier draw, else the caller's np.random.seed)", e.ravel().tolist(), g.ravel().tolist()))
+                        res.extend((i, st, "rnd: " + orc, e_, g_) for orc, e_, g_ in
+                                   q_judge(o, refs[j], kinds[j], pars[j], "invcdf", np.asarray(u, dtype=float), g))
+            except Exception as e:
+                rejected = True
+                res.append((i, st, "rnd draws succeed for a valid size and seed", "samples", "%s: %s" % (type(e).__name__, e)))
+        else:
+            rejected = True
+            buf = io.StringIO()
+            try:
+                with contextlib.redirect_stdout(buf), np.errstate(all="ignore"):
+                    if op == "rndbad":
+                        size = tuple(st[2]) if isinstance(st[2], list) else st[2]
+                        objs[st[1]].rnd(size=size, seed=st[3])
+                    elif op == "junk":
+                        getattr(objs[st[1]], st[2])(JUNK[st[3]])
+                    elif op == "fitbad":
+                        objs[st[1]].fit(sample * pars[st[1]][1] + pars[st[1]][0], method=st[2])
+                    elif op == "ctorbad":
+                        make(st[1], tuple(st[2]))
+                    elif op == "badscale":
+                        o = objs[st[1]]
+                        keep = o.scale
+                        try:
+                            o.scale = st[2]
+                            getattr(o, st[3])(built[st[4]][0])
+                        finally:
+                            o.scale = keep
+                    elif op == "read":
+                        rejected = False
+                        for orc, e_, g_ in read_clauses(objs[st[1]], refs[st[1]], kinds[st[1]]):
+                            res.append((i, st, orc, e_, g_))
+            except Exception:
+                pass
+            if op in ("rndbad",):
+                rs = None                 # the stream after a rejected draw is not specified: the next draw must carry a seed
+        # the caller's arrays are what they were
+        for k, (b, sn) in enumerate(zip(built, snaps)):
+            if k not in altered and not unchanged(b[1], sn):
+                altered.add(k)
+                now = b[1] if isinstance(b[1], list) else b[1].tolist()
+                res.append((i, st, "a query leaves the caller's argument array as it was (array %d, passed as %s): the next query of the "
+                            "history sees the values the caller put there" % (k, h["arrays"][k]["as"]),
+                            sn if isinstance(sn, list) else sn[2].tolist(), now))
+        prog["what"] = "the queries following"
+        if rejected or i == n - 1:
+            coherent(i, st, range(len(objs)))
+        if len(res) >= 6:
+            return
+    # every reported quantity against the density the object has now (quadrature), on one object of the history
+    j = h.get("final", 0)
+    if not res and valid_state(objs[j], kinds[j]):
+        for orc, e_, g_ in state_clauses(objs[j], kinds[j]):
+            res.append((n - 1, ["final", j], "at the end of the history, object %d: %s" % (j, orc), e_, g_))
+
+
+def run_query_history(h, limit=QH_LIMIT):
+    """-> list of (step index, step, oracle, expected, observed).  The history runs in a worker thread: a query that does not return
+    within the time limit is a failing clause, never a hanging check."""
+    import sys
+    import threading
+    prog, res, box = {"step": (-1, ["construct"]), "what": "the call of"}, [], {}
+
+    def work():
+        try:
+            _query_history_body(h, prog, res)
+        except BaseException as e:                # noqa: a harness-side surprise becomes a failing clause, not a crash
+            box["exc"] = e
+    out0 = sys.stdout
+    state0 = np.random.get_state()
+    t = threading.Thread(target=work, daemon=True)
+    t.start()
+    t.join(limit)
+    sys.stdout = out0
+    if t.is_alive():
+        i, st = prog["step"]
+        return list(res) + [(i, st, "every query of the history returns (time limit %g s for the whole history)" % limit, "a result or an exception",
+                             "%s step %d %r has not returned" % (prog["what"], i, st))]
+    np.random.set_state(state0)
+    if "exc" in box:
+        i, st = prog["step"]
+        res.append((i, st, "the queries of the history are defined for valid parameters", "values", "%s: %s" % (type(box["exc"]).__name__, box["exc"])))
+    return list(res)
+
+
 def run(chk):
     chk.extra["rule"] = RULE
     chk.partial += ["Gumbel / GumbelMin mean: proved to be loc +/- gamma*scale for the generated density (gu_density_mean, gm_density_mean) "
@@ -360,7 +817,7 @@ def run(chk):
     cases = [("wb", (0.0, 1.0, 2.0)), ("gm", (1.0, 2.0)), ("gu", (0.0, 1.0))]
     corpus = core.load_corpus("C15")
     for c in corpus:
-        if c.get("check") == "param-history":
+        if c.get("check") in ("param-history", "query-history"):
             continue
         key = (c["dist"], tuple(float(v) for v in c["params"]))
         if key not in cases:
@@ -593,9 +1050,36 @@ def run(chk):
         if not close(unfbits(o.split()[1]), v, 1e-14):
             chk.disagree("ecdf_" + kind, dict(n=n, i=i), unfbits(o.split()[1]), v)
 
+    # ---- query histories: the caller's arrays re-used over several objects, rejected calls in between -------------------------
+    qhs = [dict(c) for c in corpus if c.get("check") == "query-history"]
+    qhs += [gen_query_history(rng) for _ in range(40 if chk.quick else 400)]
+    names = {"wb": "Weibull", "gu": "Gumbel", "gm": "GumbelMin"}
+    for h in qhs:
+        chk.count("query-history")
+        chk.nontriv(("query-history", tuple(o["dist"] + ":" + o.get("spell", "float") for o in h["objects"]),
+                     tuple(a["as"] for a in h["arrays"]), tuple(st[0] for st in h["steps"])))
+        for st in h["steps"]:
+            chk.dist("query-history-step:%s" % st[0])
+        for a in h["arrays"]:
+            chk.dist("query-history-array:%s" % a["as"])
+        bad = run_query_history(h)
+        for i, st, orc, exp_, obs in bad[:3]:
+            chk.fail("step %d (%s) of a query history on %s objects sharing the caller's arrays: %s"
+                     % (i, st[0], " + ".join(names[o["dist"]] for o in h["objects"]), orc), h, exp_, obs, step=i)
+        if any(b[2].startswith("every query of the history returns") for b in bad):
+            break                        # a query hangs: later histories in this process would only wait as well
+
 
 def replay(rp):
     inp = rp["input"]
+    if inp.get("check") == "query-history":
+        res = run_query_history(inp)
+        for i, st, o, e, g in res:
+            print("FAILS at step %d %s: %s" % (i, st, o))
+            print("   expected:", e)
+            print("   observed:", g)
+        print("replay: %d failing clause(s)" % len(res))
+        return 1 if res else 0
     if inp.get("check") == "param-history":
         res = run_param_history(inp)
         for i, st, o, e, g in res:
